@@ -216,7 +216,7 @@ func init() {
 			"(2) valid jd / JSON Patch / JSON Merge Patch / JSON / YAML texts damaged at line and byte level, then read, applied and rendered in every format; (3) hostile YAML (.inf, .nan, non-string keys, anchors, merge keys, multi-document, huge integers); " +
 			"(4) the same material through both binaries (-p, -t, -yaml). non-trivial = the reader accepted the text (so Patch/Render ran) ; distinct = distinct texts",
 		Floors: map[string]int{"patch_calls": 500000, "patch_error_returned": 100000, "patch_result_returned": 20000, "read_accepted": 20000, "read_rejected": 10000,
-			"cli_runs": 1000, "patch_sequences_read": 5000, "cli_status_2": 300, "yaml_read_ok": 10},
+			"cli_runs": 1000, "patch_sequences_read": 5000, "cli_status_2": 300, "yaml_read_ok": 10, "valid_diff_on_malformed_document": 40},
 		Assumptions: []string{
 			"a hang is reported as inconclusive by the driver's watchdog, never as a violation by elapsed time",
 			"'one-line message' is decided as: exit status 2, non-empty stderr, and no Go crash markers (panic:, fatal error:, goroutine N [running])",
@@ -452,6 +452,52 @@ func init() {
 		CLI:  true,
 		N:    qt(900, 20000),
 		Run: func(c *mon.Ctx, i int) {
+			if i%9 == 8 {
+				// a well-formed diff (native, JSON Patch, merge patch) against a damaged or empty document
+				a, b := gen.Pair(c.R, gen.PTiny)
+				aText, bText := ref.ToJSON(a), ref.ToJSON(b)
+				var text string
+				var flags []string
+				switch (i / 9) % 3 {
+				case 0:
+					text = ReadJ(aText).Diff(ReadJ(bText)).Render()
+				case 1:
+					t, err := ReadJ(aText).Diff(ReadJ(bText)).RenderPatch()
+					if err != nil {
+						t = "[]"
+					}
+					text, flags = t, []string{"-f", "patch"}
+				default:
+					t, err := ReadJ(aText).Diff(ReadJ(bText), jd.MERGE).RenderMerge()
+					if err != nil {
+						t = "{}"
+					}
+					text, flags = t, []string{"-f", "merge"}
+				}
+				bad := gen.Pick(c.R, []string{"{", "[1,", `{"a":}`, "nul", `{"a":1}}`, "\x00", `"unterminated`, mutateText(c.R, aText) + "]"})
+				yaml := (i/27)%2 == 1
+				if yaml {
+					flags = append(flags, "-yaml")
+					bad = gen.Pick(c.R, []string{"a: [1, 2", "\ta: 1", "a: b: c", "- 1\n  - 2\n - 3", "*unknown", "a: &x\n  - *y", "%YAML 9.9\n---\n{"})
+				}
+				var rerr error
+				if yaml {
+					_, rerr = jd.ReadYamlString(bad)
+				} else {
+					_, rerr = jd.ReadJsonString(bad)
+				}
+				if rerr == nil {
+					c.Skip("the damaged document is still readable")
+					return
+				}
+				c.Input("diff", text)
+				c.Input("document", bad)
+				c.Feature("valid_diff_on_malformed_document")
+				c.Nontrivial(text + bad)
+				c13CLI(c, append(append([]string{"-p"}, flags...), "p.txt", "doc.txt"), "", map[string]string{"p.txt": text, "doc.txt": bad}, true)
+				c13CLI(c, append(append([]string{"-p"}, flags...), "p.txt"), bad, map[string]string{"p.txt": text}, true)
+				return
+			}
 			switch i % 4 {
 			case 0: // hostile diff through -p
 				text := hostileDiffText(c.R, 1+i%3)
@@ -541,6 +587,9 @@ func init() {
 			c.Input("executions", execs)
 			cmd := exec.Command("go", "test", "-tags", "verif", "-run=^$", "-fuzz=^"+target+"$", "-fuzztime="+execs+"x", "-parallel=3", "./fuzz")
 			cmd.Dir = "/verif/harness"
+			if v := os.Getenv("VH_VERIF_DIR"); v != "" {
+				cmd.Dir = v + "/harness"
+			}
 			cmd.Env = append(os.Environ(), "GOMAXPROCS=4")
 			out, err := cmd.CombinedOutput()
 			text := string(out)
